@@ -22,6 +22,7 @@
 
 static tp_p g_tp;
 static const c11_scn *g_scn;
+static c11_out *g_out;
 static atomic_uint g_cb_total;	/* every user callback (messages, timer, pipe) bumps this */
 static atomic_uint g_msgs_done, g_step_done;
 static tp_udata_t g_timer_ud, g_pipe_ud;
@@ -81,6 +82,11 @@ thr_attach(void *a) {
 	tp_log(R_API_CALL, 0, A_ATTACH_FIRST, 0, 0);
 	rc = tp_thread_attach_first(g_tp);
 	tp_log(R_API_RET, 0, A_ATTACH_FIRST, (uint64_t)(int64_t)rc, 0);
+	/* back from the loop: this is an ordinary thread again (the usual main(): attach, then wait and destroy) */
+	if (0 == rc && NULL != tpt_get_current())
+		g_out->attached_still_pool_thread = 1;
+	if (0 == rc && 4 == g_scn->wait_mode && 4 != g_scn->shutdown_mode)
+		api_shutdown_wait(A_WAIT_ATTACHED); /* the main thread joins this thread before it destroys the pool */
 	return (NULL);
 }
 /* steps executed inside a pool thread */
@@ -137,8 +143,11 @@ c11_run(const c11_scn *scn, c11_out *out) {
 	uint32_t cb_at_destroy, sent = 0;
 	tp_p tp = SENTINEL;
 
+	int saved_fd0 = -1;
+
 	memset(out, 0, sizeof(*out));
 	g_scn = scn;
+	g_out = out;
 	tp_harness_reset(&scn->plans);
 	tp_res_get(&out->res_before);
 	atomic_store(&g_cb_total, 0);
@@ -155,6 +164,13 @@ c11_run(const c11_scn *scn, c11_out *out) {
 	s.tpt_on_stop = hook_stop;
 
 	tp_harness_arm();
+	if (scn->free_fd0) { /* the pool is created while descriptor 0 is free */
+		saved_fd0 = dup(0);
+		if (saved_fd0 >= 0) {
+			close(0);
+			out->fd0_was_freed = 1;
+		}
+	}
 	tp_log(R_API_CALL, 0, A_CREATE, 0, 0);
 	rc = tp_create(&s, &tp);
 	tp_log(R_API_RET, 0, A_CREATE, (uint64_t)(int64_t)rc, 0);
@@ -164,6 +180,10 @@ c11_run(const c11_scn *scn, c11_out *out) {
 		out->tp_ptr_after_failed_create = (uint64_t)(uintptr_t)tp;
 		tp_res_get(&out->res);
 		tp_res_cleanup();
+		if (saved_fd0 >= 0) {
+			dup2(saved_fd0, 0);
+			close(saved_fd0);
+		}
 		return;
 	}
 	g_tp = tp;
@@ -263,6 +283,13 @@ c11_run(const c11_scn *scn, c11_out *out) {
 			}
 			did_wait = 1;
 			break;
+		case 4: /* the attached thread waits by itself once it is out of the loop (see thr_attach) */
+			if (have_attach) {
+				pthread_join(th_attach, NULL);
+				have_attach = 0;
+				did_wait = 1;
+			}
+			break;
 		default:
 			break;
 		}
@@ -292,4 +319,8 @@ c11_run(const c11_scn *scn, c11_out *out) {
 		close(g_pipe[1]);
 	}
 	tp_res_cleanup();
+	if (saved_fd0 >= 0) {
+		dup2(saved_fd0, 0);
+		close(saved_fd0);
+	}
 }
